@@ -81,7 +81,22 @@ impl<C: StreamCipher + StreamCipherSeek> DynCipher for C {
     }
 }
 
+/// Key and nonce are handed to the constructor at addresses whose alignment (0..7 within an 8-byte aligned buffer) is a
+/// function of the key bytes: callers keep keys inside larger buffers, and the byte loads of the portable back end
+/// must not care. (C16 places them itself and uses `make_cipher_at`.)
 pub fn make_cipher(variant: usize, key: &[u8], nonce: &[u8]) -> Box<dyn DynCipher> {
+    let mut kb = [0u64; 6];
+    let mut nb = [0u64; 5];
+    let ko = (key[0] & 7) as usize;
+    let no = (key[1] & 7) as usize;
+    let kbytes: &mut [u8] = unsafe { std::slice::from_raw_parts_mut(kb.as_mut_ptr() as *mut u8, 48) };
+    let nbytes: &mut [u8] = unsafe { std::slice::from_raw_parts_mut(nb.as_mut_ptr() as *mut u8, 40) };
+    kbytes[ko..ko + key.len()].copy_from_slice(key);
+    nbytes[no..no + nonce.len()].copy_from_slice(nonce);
+    make_cipher_at(variant, &kbytes[ko..ko + key.len()], &nbytes[no..no + nonce.len()])
+}
+
+pub fn make_cipher_at(variant: usize, key: &[u8], nonce: &[u8]) -> Box<dyn DynCipher> {
     let k = GenericArray::from_slice(key);
     match variant {
         0 => Box::new(ChaCha8::new(k, GenericArray::from_slice(nonce))),
